@@ -13,6 +13,7 @@ import Depccg.Read.Prolog
 import Depccg.Read.Conll
 import Depccg.Read.ConllDoc
 import Depccg.Read.LineDoc
+import Depccg.Read.BlockDoc
 import Depccg.Read.Json
 import Depccg.Read.XmlText
 
@@ -156,6 +157,12 @@ def dispatch (op : String) (ts : List String) : Option String :=
       | some (s, []) => (match Read.decLineDoc s with
         | some recs => "ok " ++ toString recs.length ++ String.join (recs.map fun (n, sc, line) =>
             " ## " ++ toString n ++ " " ++ encStr sc ++ " " ++ encStr line)
+        | none => "none")
+      | _ => "bad-op")
+  | "block_doc" => some (match pStr ts with
+      | some (s, []) => (match Read.decBlockDoc s with
+        | some recs => "ok " ++ toString recs.length ++ String.join (recs.map fun (n, sc, block) =>
+            " ## " ++ toString n ++ " " ++ encStr sc ++ " " ++ encStr block)
         | none => "none")
       | _ => "bad-op")
   | "prolog_dec" => some (match pStr ts with
